@@ -161,6 +161,11 @@ def run(ctx):
         oks = len(sc) == 1 and [tb.operand(x, sc[0][0], len(iiq.blocks[sc[0][0]].stmts)) for x in sc[0][1].args][1:] == [("param", 2, "quotient"), ("param", 3, "remainder"), const(True)]
         ctx.check(oks, "R01-quotient-shared-scan", iiq.key, iiq, "insert_internal uses scan(quotient, remainder, true)", "insert_internal does not locate the slot through scan(quotient, remainder, true)")
 
+    # ---- survival across failed insert / union: the C12 rule set, applied here because a fingerprint lost by a botched
+    # rollback is a false negative for an element inserted earlier
+    from .C12 import run_restore_rules
+    run_restore_rules(ctx)
+
     # ---- compat --------------------------------------------------------------------------------------------
     hi = ctx.anchor("<%s as filters::Filter[T]>::insert" % HS)
     hq = ctx.anchor("<%s as filters::Filter[T]>::query" % HS)
